@@ -84,15 +84,84 @@ pub fn debug_ints(s: &str) -> Vec<u64> {
     out
 }
 
+/// `name: integer` pairs of a `Debug` rendering (decimal or 0x-hex values), in order of appearance.
+pub fn debug_named_ints(s: &str) -> Vec<(String, u64)> {
+    let b = s.as_bytes();
+    let mut out = Vec::new();
+    let mut i = 0;
+    while i < b.len() {
+        if b[i].is_ascii_alphabetic() || b[i] == b'_' {
+            let st = i;
+            while i < b.len() && (b[i].is_ascii_alphanumeric() || b[i] == b'_') {
+                i += 1;
+            }
+            let name = &s[st..i];
+            let mut j = i;
+            while j < b.len() && b[j] == b' ' {
+                j += 1;
+            }
+            if j < b.len() && b[j] == b':' {
+                j += 1;
+                while j < b.len() && b[j] == b' ' {
+                    j += 1;
+                }
+                let vs = j;
+                if j + 1 < b.len() && b[j] == b'0' && (b[j + 1] == b'x' || b[j + 1] == b'X') {
+                    j += 2;
+                    let hs = j;
+                    while j < b.len() && (b[j].is_ascii_hexdigit() || b[j] == b'_') {
+                        j += 1;
+                    }
+                    if let Ok(v) = u64::from_str_radix(&s[hs..j].replace('_', ""), 16) {
+                        out.push((name.to_ascii_lowercase(), v));
+                        i = j;
+                    }
+                } else {
+                    while j < b.len() && b[j].is_ascii_digit() {
+                        j += 1;
+                    }
+                    if j > vs {
+                        if let Ok(v) = s[vs..j].parse::<u64>() {
+                            out.push((name.to_ascii_lowercase(), v));
+                            i = j;
+                        }
+                    }
+                }
+            }
+        } else {
+            i += 1;
+        }
+    }
+    out
+}
+
+/// Read (first, number, picture id) from the `Debug` rendering of an SLI entry: by field name when the
+/// rendering names its fields (so a reordering or renaming within the obvious vocabulary is harmless),
+/// else by position when it shows exactly three integers. `None` = this rendering cannot be read.
+pub fn sli_from_debug(txt: &str) -> Option<(u16, u16, u8)> {
+    let named = debug_named_ints(txt);
+    let find = |keys: &[&str]| named.iter().find(|(n, _)| keys.iter().any(|k| n.contains(k))).map(|(_, v)| *v);
+    let first = find(&["start", "first"]);
+    let number = find(&["count", "number", "num", "len"]);
+    let pic = find(&["pic"]);
+    if let (Some(a), Some(n), Some(p)) = (first, number, pic) {
+        return Some((a as u16, n as u16, p as u8));
+    }
+    let ints = debug_ints(txt);
+    if ints.len() == 3 {
+        return Some((ints[0] as u16, ints[1] as u16, ints[2] as u8));
+    }
+    None
+}
+
 pub fn obs_sli(s: &Sli, len: usize) -> Result<Vec<(u16, u16, u8)>, ObsErr> {
     let mut out = Vec::new();
     for e in collect_capped(s.lost_macroblocks(), len, "Sli::lost_macroblocks")? {
         let txt = format!("{:?}", e);
-        let ints = debug_ints(&txt);
-        if ints.len() != 3 {
-            crate::engine::run::machinery_failure(&format!("cannot read an SLI entry from its Debug rendering: {}", txt));
+        match sli_from_debug(&txt) {
+            Some(t) => out.push(t),
+            None => crate::engine::run::machinery_failure(&format!("cannot read an SLI entry from its Debug rendering: {}", txt)),
         }
-        out.push((ints[0] as u16, ints[1] as u16, ints[2] as u8));
     }
     Ok(out)
 }
